@@ -15,10 +15,10 @@ Definition mk_ans rc tc an ropt qopt qoptcnt : ansinfo :=
 Definition mkcfg (fx : fixes) (max_tries : nat) : config :=
   {| cf_fix := fx; cf_max_tries := max_tries; cf_igntc := false; cf_nocheckresp := false; cf_dns0x20 := false |}.
 
-Definition without_unlink := {| fx_unlink := false; fx_search := true; fx_revalidate := true; fx_connread := true |}.
-Definition without_search := {| fx_unlink := true; fx_search := false; fx_revalidate := true; fx_connread := true |}.
-Definition without_revalidate := {| fx_unlink := true; fx_search := true; fx_revalidate := false; fx_connread := true |}.
-Definition without_connread := {| fx_unlink := true; fx_search := true; fx_revalidate := true; fx_connread := false |}.
+Definition without_unlink := {| fx_unlink := false; fx_search := true; fx_revalidate := true; fx_connread := true; fx_qidearly := true |}.
+Definition without_search := {| fx_unlink := true; fx_search := false; fx_revalidate := true; fx_connread := true; fx_qidearly := true |}.
+Definition without_revalidate := {| fx_unlink := true; fx_search := true; fx_revalidate := false; fx_connread := true; fx_qidearly := true |}.
+Definition without_connread := {| fx_unlink := true; fx_search := true; fx_revalidate := true; fx_connread := false; fx_qidearly := true |}.
 
 Definition accepted (o : outcome (list event)) : bool :=
   match o with Ok tr => match callback_monitor tr with VOk => true | _ => false end | _ => false end.
@@ -83,6 +83,23 @@ Definition h_cancel_in_destroy (pinned_tape : bool) : list (input * list tev) :=
   (* pinned: the query being destroyed is still on its connection, nothing is idle *)
   (IDestroy, if pinned_tape then [TK; TKE] else [TK; TCL 0; TKE])].
 
+(* 7. servers=2 tries=2 timeout=1000 failover=1,0|send 9 x.example IN A rd;adv 500;oncb 1 cancel;gai 1 g1.example 0 0x80;
+      rsp x1 an=A:1.2.3.4;proc;adv 500;proct;fail sendto 2 ECONNREFUSED;gai 5 g2.example 4 0x80
+      (found with this model, reproduced on the real library with the four fixes applied):
+      ares_send_query() of getaddrinfo 5's query succeeds, then probes the failed server 0; the probe
+      cannot be written to server 0's connection, which is closed; the AAAA query of getaddrinfo 1
+      on it no longer retries (terminate_retries) and ends; getaddrinfo 1 completes and its callback
+      cancels, which completes getaddrinfo 5 and releases its host_query; ares_send_nolock() then
+      stores the query id through &hquery->qid_a. *)
+Definition without_qidearly := {| fx_unlink := true; fx_search := true; fx_revalidate := true; fx_connread := true; fx_qidearly := false |}.
+Definition h_qid_after_free : list (input * list tev) := [
+  (IApi (ASend 9), [TI 1; TQ (4)%Z 0 0 2; TD (0)%Z; TO (0)%Z; TW 1 0 false; TF 0 (0)%Z]);
+  (IOnCb 1 (ACancel), []);
+  (IApi (AGai 1 [false] 0 [true] false), [TI 3; TQ (4)%Z 0 0 2; TD (0)%Z; TW 3 0 false; TF 0 (0)%Z; TI 4; TQ (4)%Z 0 0 2; TD (0)%Z; TW 4 0 false; TF 0 (0)%Z]);
+  (IProc [] [0], [TM 3 0 (mk_ans 0 false 1 true true true); TMR (0)%Z false; TG; TE 3 (0)%Z; TP (0)%Z true true false; TK; TKE]);
+  (IProc [] [], [TK; TKE; TS; TO (0)%Z; TW 1 1 false; TF 1 (0)%Z]);
+  (IApi (AGai 5 [false] 4 [true] false), [TI 5; TQ (4)%Z 0 0 2; TD (0)%Z; TW 5 1 false; TF 1 (0)%Z; TI 6; TD (0)%Z; TW 6 0 false; TF 0 (11)%Z; TS; TX 0 (11)%Z; TE 4 (11)%Z; TK; TCL 1; TKE; TCL 0])].
+
 Definition fuel := 60.
 
 (* ---- the witnesses ---- *)
@@ -126,3 +143,8 @@ Proof. vm_compute. split; reflexivity. Qed.
 Example pinned_all_off_cancel_in_callback :
   ub_of (run (mkcfg pinned 3) fuel h_cancel_in_cb []) = Some UseAfterFree.
 Proof. vm_compute. reflexivity. Qed.
+
+Example refuted_qid_written_after_free :
+  ub_of (run (mkcfg without_qidearly 4) fuel h_qid_after_free []) = Some UseAfterFree
+  /\ accepted (run (mkcfg all_fixed 4) fuel h_qid_after_free []) = true.
+Proof. vm_compute. split; reflexivity. Qed.
